@@ -322,6 +322,25 @@ func genTanCases(r *vh.Rand, tier string, n int) []string {
 		}
 		add("tangarb", fmt.Sprintf("%d %s", r.Intn(120), vh.Hex(g)), rs)
 	}
+	// records of 4-7 blocks (first, several middle, last chunk), as one update with a
+	// 100-200 KB entry produces them
+	nh := 2
+	if tier == "thorough" {
+		nh = 20
+	}
+	for i := 0; i < nh; i++ {
+		rs := []string{recTok(r.Intn(60), r.Intn(1000)), recTok(100000+r.Intn(100000), r.Intn(1000)),
+			recTok(r.Intn(40000), r.Intn(1000)), recTok(100000+r.Intn(100000), r.Intn(1000))}
+		add("tanframe", "", rs)
+		var cuts []string
+		for j := 0; j < 12; j++ {
+			cuts = append(cuts, strconv.Itoa(r.Intn(9*blk)))
+		}
+		for b := 2; b <= 5; b++ {
+			cuts = append(cuts, strconv.Itoa(b*blk-1), strconv.Itoa(b*blk), strconv.Itoa(b*blk+hdr), strconv.Itoa(b*blk+hdr+1))
+		}
+		add("tancut", strings.Join(cuts, ","), rs)
+	}
 	for i := 0; i < nb; i++ {
 		rs := bigRecs()
 		add("tanframe", "", rs)
